@@ -1141,8 +1141,12 @@ def generic_replay(ctx, mod, path):
     fails = spec.oracle(case, obs[0])
     for s_, what in fails:
         print("ORACLE FAILS: %s: %s" % (s_, what))
-    failing, cerr = eval_failing_multi(spec.imports, [spec.coq_case(case, obs[0])], spec.checkers, "replay_%s" % ctx.pid, preamble=spec.preamble)
-    print("model agreement: " + ", ".join("%s=%s" % (k, "DISAGREES" if v else "agrees") for k, v in failing.items()) + ((" error: " + cerr[:500]) if cerr else ""))
+    if spec.checkers:
+        failing, cerr = eval_failing_multi(spec.imports, [spec.coq_case(case, obs[0])], spec.checkers, "replay_%s" % ctx.pid, preamble=spec.preamble)
+        print("model agreement: " + ", ".join("%s=%s" % (k, "DISAGREES" if v else "agrees") for k, v in failing.items()) + ((" error: " + cerr[:500]) if cerr else ""))
+    else:
+        failing = {}
+        print("model agreement: n/a (this part of the check has an oracle only)")
     bad = bool(fails) or any(v for k, v in failing.items() if k not in getattr(spec, "informational", ()))
     print("violation reproduces" if bad else "violation does not reproduce on the current tree")
     sys.exit(1 if bad else 0)
